@@ -2,7 +2,7 @@
    ONLY statements, each closed by [exact] of a lemma proved in proofs/, followed by
    Print Assumptions. *)
 From DF Require Import Prelude Constants_gen Region Mesh Subregions
-  C01_axis C14_setter C14_lattice C14_axis C14_sel C14_findings.
+  C01_axis C14_setter C14_lattice C14_axis C14_sel C14_findings Check_C14 C14_sound.
 Open Scope Q_scope.
 
 (* ---------- the setter ---------- *)
@@ -168,3 +168,218 @@ Print Assumptions C14_partial_sel_clip_axis.
 Example C14_sel_nonvacuous : keeps 0 4 4 1 3 2 3 = true /\ keeps 0 4 4 1 3 3 3 = false.
 Proof. split; vm_compute; reflexivity. Qed.
 Print Assumptions C14_sel_nonvacuous.
+
+(* ---------- the tie, proved: a shard case that evaluates to true certifies that the OBSERVED
+   output is the model's value on the recorded input (exact regime: equal decisions, == corners;
+   either regime: see the *_any_regime statements) ---------- *)
+(* the meshes the checker builds from recorded inputs are well-formed *)
+Theorem C14_checker_mesh_wf : forall p1 p2 ns m, mesh_of p1 p2 ns = OK m -> (length p1 <= 10)%nat ->
+  wf_mesh m /\ length (pmin (reg m)) = length p1 /\ length (pmax (reg m)) = length p1.
+Proof. exact mesh_of_wf. Qed.
+Print Assumptions C14_checker_mesh_wf.
+Theorem C14_checker_state_wf : forall s m, build_state s = OK m -> 0 <= s_tf s -> wf_mesh m.
+Proof. exact build_state_wf. Qed.
+Print Assumptions C14_checker_state_wf.
+
+Theorem C14_check_aligned_sound : forall p1 p2 n1 q1 q2 n2 tol obs,
+  check_C14 (CAligned true p1 p2 n1 q1 q2 n2 tol obs) = true ->
+  exists m o, mesh_of p1 p2 n1 = OK m /\ mesh_of q1 q2 n2 = OK o /\ obs = is_aligned_tol tol m o.
+Proof. exact check_aligned_sound. Qed.
+Print Assumptions C14_check_aligned_sound.
+
+Theorem C14_check_setter_sound : forall s cands obs_acc obs_subs,
+  check_C14 (CSetter true s cands obs_acc obs_subs) = true ->
+  exists m l, build_state s = OK m /\ mapres cand_region cands = OK l /\
+    obs_acc = is_ok (set_subregions_tol align_tol m l) /\
+    subs_rel true (scales m) (subs (assign_tol align_tol m l)) obs_subs.
+Proof. exact check_setter_sound. Qed.
+Print Assumptions C14_check_setter_sound.
+
+Theorem C14_check_transform_sound : forall s inplace o obs,
+  check_C14 (CTransform true s inplace o obs) = true ->
+  exists m, build_state s = OK m /\ res_rel (transform_tol align_tol inplace o m) obs.
+Proof. exact check_transform_sound. Qed.
+Print Assumptions C14_check_transform_sound.
+
+Theorem C14_check_sel_plane_sound : forall s a v obs,
+  check_C14 (CSelPlane true s a v obs) = true ->
+  exists m, build_state s = OK m /\ res_rel (sel_plane_tol align_tol m a v) obs.
+Proof. exact check_sel_plane_sound. Qed.
+Print Assumptions C14_check_sel_plane_sound.
+
+Theorem C14_check_sel_range_sound : forall s a x1 x2 obs,
+  check_C14 (CSelRange true s a x1 x2 obs) = true ->
+  exists m, build_state s = OK m /\ res_rel (sel_range_tol align_tol m a x1 x2) obs.
+Proof. exact check_sel_range_sound. Qed.
+Print Assumptions C14_check_sel_range_sound.
+
+Theorem C14_check_named_sound_any_regime : forall exact s name obs,
+  check_C14 (CNamed exact s name obs) = true ->
+  exists m, build_state s = OK m /\
+    match obs with
+    | Some o => exists sm, named m name = OK sm /\ mesh_rel exact sm o
+    | None => is_ok (named m name) = false
+    end.
+Proof. exact check_named_sound. Qed.
+Print Assumptions C14_check_named_sound_any_regime.
+
+Theorem C14_check_persist_h5_sound : forall s obs,
+  check_C14 (CPersistH5 true s obs) = true ->
+  exists m, build_state s = OK m /\
+    res_rel (h5_load_tol align_tol (mkMesh (reg m) (n m) (bc m) []) (h5_rows (subs m))) obs.
+Proof. exact check_persist_h5_sound. Qed.
+Print Assumptions C14_check_persist_h5_sound.
+
+Theorem C14_check_persist_json_sound : forall src dst obs_acc obs_subs,
+  check_C14 (CPersistJson true src dst obs_acc obs_subs) = true ->
+  exists ms md, build_state src = OK ms /\ build_state dst = OK md /\
+    obs_acc = is_ok (json_load_tol align_tol md (subs ms)) /\
+    subs_rel true (scales md)
+      (match json_load_tol align_tol md (subs ms) with OK m' => subs m' | Err _ => subs md end) obs_subs.
+Proof. exact check_persist_json_sound. Qed.
+Print Assumptions C14_check_persist_json_sound.
+
+(* either regime: decisions are certified where the model's answer is the same at tolerance -/+ the
+   rounding allowance; corners within 1e-9 of the axis scale (mesh_rel false / subs_rel false) *)
+Theorem C14_check_aligned_sound_any_regime : forall exact p1 p2 n1 q1 q2 n2 tol obs,
+  check_C14 (CAligned exact p1 p2 n1 q1 q2 n2 tol obs) = true ->
+  exists m o, mesh_of p1 p2 n1 = OK m /\ mesh_of q1 q2 n2 = OK o /\
+    let d := delta exact (reg_coords (reg m) ++ reg_coords (reg o)) in
+    (is_aligned_tol (tol - d) m o = is_aligned_tol (tol + d) m o -> obs = is_aligned_tol (tol - d) m o).
+Proof. exact check_aligned_sound_gen. Qed.
+Print Assumptions C14_check_aligned_sound_any_regime.
+
+Theorem C14_check_setter_sound_any_regime : forall exact s cands obs_acc obs_subs,
+  check_C14 (CSetter exact s cands obs_acc obs_subs) = true ->
+  exists m l, build_state s = OK m /\ mapres cand_region cands = OK l /\
+    let d := delta exact (reg_coords (reg m) ++ subs_coords l) in
+    (is_ok (set_subregions_tol (align_tol - d) m l) = is_ok (set_subregions_tol (align_tol + d) m l) ->
+     obs_acc = is_ok (set_subregions_tol (align_tol - d) m l)) /\
+    subs_rel exact (scales m)
+      (if obs_acc then map (fun nr => (fst nr, recreate m (snd nr))) l else subs m) obs_subs.
+Proof. exact check_setter_sound_gen. Qed.
+Print Assumptions C14_check_setter_sound_any_regime.
+
+Theorem C14_check_sel_plane_sound_any_regime : forall exact s a v obs,
+  check_C14 (CSelPlane exact s a v obs) = true ->
+  exists m, build_state s = OK m /\
+    let d := delta exact (reg_coords (reg m)) in
+    res_rel_tol exact (sel_plane_tol (align_tol - d) m a v) (sel_plane_tol (align_tol + d) m a v) obs.
+Proof. exact check_sel_plane_sound_gen. Qed.
+Print Assumptions C14_check_sel_plane_sound_any_regime.
+
+Theorem C14_check_sel_range_sound_any_regime : forall exact s a x1 x2 obs,
+  check_C14 (CSelRange exact s a x1 x2 obs) = true ->
+  exists m, build_state s = OK m /\
+    let d := delta exact (reg_coords (reg m)) in
+    res_rel_tol exact (sel_range_tol (align_tol - d) m a x1 x2) (sel_range_tol (align_tol + d) m a x1 x2) obs.
+Proof. exact check_sel_range_sound_gen. Qed.
+Print Assumptions C14_check_sel_range_sound_any_regime.
+
+Theorem C14_check_persist_h5_sound_any_regime : forall exact s obs,
+  check_C14 (CPersistH5 exact s obs) = true ->
+  exists m, build_state s = OK m /\
+    let d := delta exact (reg_coords (reg m)) in
+    let m0 := mkMesh (reg m) (n m) (bc m) [] in
+    res_rel_tol exact (h5_load_tol (align_tol - d) m0 (h5_rows (subs m)))
+                      (h5_load_tol (align_tol + d) m0 (h5_rows (subs m))) obs.
+Proof. exact check_persist_h5_sound_gen. Qed.
+Print Assumptions C14_check_persist_h5_sound_any_regime.
+
+Theorem C14_check_transform_sound_any_regime : forall exact s inplace o ob,
+  check_C14 (CTransform exact s inplace o (Some ob)) = true ->
+  exists m, build_state s = OK m /\
+    let d0 := delta exact (reg_coords (reg m) ++ op_coords o) in
+    let d := delta exact (reg_coords (reg m) ++ op_coords o ++
+                          res_coords (transform_tol (align_tol + d0) true o m)) in
+    res_rel_tol exact (transform_tol (align_tol - d) inplace o m) (transform_tol (align_tol + d) inplace o m) (Some ob).
+Proof. exact check_transform_sound_gen. Qed.
+Print Assumptions C14_check_transform_sound_any_regime.
+
+(* the name -> box comparison is onto when the model's names are distinct (a dictionary):
+   the observed names are distinct too and every OBSERVED entry is one of the model's *)
+Theorem C14_subs_rel_onto : forall exact sc l o, subs_rel exact sc l o -> NoDup (map fst l) ->
+  NoDup (map (fun ob : sub_obs => fst (fst ob)) o) /\
+  forall ob, In ob o -> exists nr, In nr l /\ sub_rel exact sc nr ob.
+Proof. exact subs_rel_onto. Qed.
+Print Assumptions C14_subs_rel_onto.
+
+(* a whole shard: no failing index means every case was accepted *)
+Theorem C14_shard_verdict : forall cases k,
+  failing k (map check_C14 cases) = [] -> forall c, In c cases -> check_C14 c = true.
+Proof. exact shard_verdict. Qed.
+Print Assumptions C14_shard_verdict.
+
+(* ---------- transfer: the theorems above, stated about the OBSERVED outputs ---------- *)
+(* C14_accept_iff + C14_rejected_keeps_previous + C14_accepted_recreated on the observed decision and
+   the observed table of the subregions setter *)
+Theorem C14_accepted_setter_transfer : forall s cands obs_acc obs_subs,
+  check_C14 (CSetter true s cands obs_acc obs_subs) = true ->
+  exists m l, build_state s = OK m /\ mapres cand_region cands = OK l /\
+    (obs_acc = true <-> Forall (fun nr => sub_ok align_tol m (snd nr) = true) l) /\
+    (obs_acc = false -> subs_rel true (scales m) (subs m) obs_subs) /\
+    (obs_acc = true ->
+       length obs_subs = length l /\
+       forall nr, In nr l -> exists ob, In ob obs_subs /\
+         fst (fst ob) = fst nr /\
+         Forall2 Qeq (pmin (snd nr)) (fst (snd (fst ob))) /\
+         Forall2 Qeq (pmax (snd nr)) (snd (snd (fst ob))) /\
+         fst (snd ob) = dims (reg m) /\ snd (snd ob) = units (reg m)).
+Proof. exact accepted_setter_transfer. Qed.
+Print Assumptions C14_accepted_setter_transfer.
+
+(* C14_aligned_iff on the observed answer of Mesh.is_aligned; well-formedness comes from the constructors *)
+Theorem C14_accepted_aligned_transfer : forall p1 p2 n1 q1 q2 n2 tol obs,
+  check_C14 (CAligned true p1 p2 n1 q1 q2 n2 tol obs) = true ->
+  (length p1 <= 10)%nat -> length q1 = length p1 ->
+  exists m o, mesh_of p1 p2 n1 = OK m /\ mesh_of q1 q2 n2 = OK o /\ wf_mesh m /\ wf_mesh o /\
+    (obs = true <->
+     (length (cell m) = length (cell o) /\
+      forall a, (a < length (pmin (reg m)))%nat ->
+        Qabs (nth a (cell m) 0 - nth a (cell o) 0) <= tol + align_rtol * Qabs (nth a (cell o) 0)) /\
+     (forall a, (a < length (pmin (reg m)))%nat ->
+        near_multiple tol (nth a (cell m) 0) (Qabs (nth a (pmin (reg m)) 0 - nth a (pmin (reg o)) 0))) /\
+     (forall a, (a < length (pmin (reg m)))%nat ->
+        near_multiple tol (nth a (cell m) 0) (Qabs (nth a (pmax (reg m)) 0 - nth a (pmax (reg o)) 0)))).
+Proof. exact accepted_aligned_transfer. Qed.
+Print Assumptions C14_accepted_aligned_transfer.
+
+(* mesh[name]: the observed mesh has the corners, dims and units of the named subregion and its
+   cell count measured in cells of the parent; it carries no subregions *)
+Theorem C14_accepted_named_transfer : forall s name o,
+  check_C14 (CNamed true s name (Some o)) = true ->
+  exists m r, build_state s = OK m /\ lookup name (subs m) = Some r /\
+    Forall2 Qeq (pmin r) (o_pmin o) /\ Forall2 Qeq (pmax r) (o_pmax o) /\
+    o_n o = map2 (fun e x => Qround_half_even (e / x)) (edges r) (cell m) /\
+    o_dims o = dims r /\ o_units o = units r /\ o_subs o = [].
+Proof. exact accepted_named_transfer. Qed.
+Print Assumptions C14_accepted_named_transfer.
+
+(* non-vacuity: concrete accepted cases *)
+Example C14_accepted_aligned_instance :
+  check_C14 (CAligned true [0; 0] [4; 2] [4; 2]%Z [1; 0] [3; 1] [2; 1]%Z (1 # 1000000000000) true) = true.
+Proof. exact accepted_aligned_instance. Qed.
+Print Assumptions C14_accepted_aligned_instance.
+Example C14_rejected_aligned_instance :
+  check_C14 (CAligned true [0] [4] [4]%Z [1 # 2] [5 # 2] [2]%Z (1 # 1000000000000) false) = true.
+Proof. exact rejected_aligned_instance. Qed.
+Print Assumptions C14_rejected_aligned_instance.
+Example C14_accepted_setter_instance :
+  check_C14 (CSetter true (mkSt [0] [4] [4]%Z (1 # 1000000000000) ["x"%string] ["m"%string] [])
+               [("a"%string, ([1], [3]), 1 # 1000000000000)] true
+               [("a"%string, ([1], [3]), (["x"%string], ["m"%string]))]) = true.
+Proof. exact accepted_setter_instance. Qed.
+Print Assumptions C14_accepted_setter_instance.
+Example C14_rejected_setter_instance :
+  check_C14 (CSetter true (mkSt [0] [4] [4]%Z (1 # 1000000000000) ["x"%string] ["m"%string]
+                                [("old"%string, ([0], [2]))])
+               [("a"%string, ([1 # 2], [3]), 1 # 1000000000000)] false
+               [("old"%string, ([0], [2]), (["x"%string], ["m"%string]))]) = true.
+Proof. exact rejected_setter_instance. Qed.
+Print Assumptions C14_rejected_setter_instance.
+Example C14_accepted_named_instance :
+  check_C14 (CNamed true (mkSt [0] [4] [4]%Z (1 # 1000000000000) ["x"%string] ["m"%string]
+                               [("a"%string, ([1], [3]))]) "a"
+               (Some (mkObs [1] [3] [2]%Z ["x"%string] ["m"%string] []))) = true.
+Proof. exact accepted_named_instance. Qed.
+Print Assumptions C14_accepted_named_instance.
